@@ -42,6 +42,14 @@ static void zoo(rng& g, char const* name, E const& base, bool thorough)
         run_plain<T>(c, engine, iters);
     }
     {
+        // once more with fewer dimensions than the run before (the same instantiation of the integrator is reused)
+        call_ctx<T> c;
+        c.cfg.kind = "plain";
+        c.cfg.d = 1;
+        c.plan = make_plan(g);
+        run_plain<T>(c, engine, std::vector<std::size_t>{3, 7});
+    }
+    {
         std::size_t d = 1 + g.below(thorough ? 4 : 2);
         hep::vegas_pdf<T> pdf(d, 4);
         for (std::size_t j = 0; j != d; ++j) { pdf.set_bin_left(j, 1, T(0.0625)); pdf.set_bin_left(j, 2, T(0.25)); pdf.set_bin_left(j, 3, T(0.5)); }
